@@ -262,3 +262,41 @@ def cast_then_bitwise(fxx, scope):
                     if any(o[0] in ("c", "m") and _anc(g, o[1][0]) & casts for o in ops):
                         out.append((g, st))
     return out
+
+
+def to_string_rule(fx, ck, scope, printer_root="value::number_to_string"):
+    """R5 (second half): `n.to_string()` on an f64 is the same second printer as `format!("{}", n)`; anywhere in the compiler or the
+    interpreter a script number that becomes text (a property name, a string value) goes through value::number_to_string."""
+    cone = set()
+    if printer_root in fx.fns:
+        work = [printer_root]
+        while work:
+            p = work.pop()
+            if p in cone:
+                continue
+            cone.add(p)
+            for bi, t in fx.fns[p].calls():
+                if t[1].get("local") and t[1].get("d") in fx.fns:
+                    work.append(t[1]["d"])
+    n = 0
+    for p, f in sorted(fx.fns.items()):
+        if f.derived or not scope(f):
+            continue
+        top = f.parent if f.closure else f.path
+        for bi, t in f.calls():
+            d = t[1].get("d") or ""
+            u = t[1].get("u") or ""
+            if not (u.endswith("ToString::to_string") or d.endswith("ToString>::to_string")):
+                continue
+            targs = [fx.tys(x) for x in t[1].get("targs", [])]
+            a0 = fx.tys(f.locals[t[2][0][1][0]]) if t[2] and t[2][0][0] in ("c", "m") else "?"
+            if "f64" not in targs and a0 not in ("&f64", "f64"):
+                continue
+            n += 1
+            ok = top in cone
+            ck.instance("R5.one-printer", "%s: f64::to_string()" % f.path, F.short_span(t[6]), ok=ok)
+            if not ok:
+                ck.finding("R5.one-printer", "R5.one-printer/%s/to_string" % top, F.short_span(t[6]),
+                           "`%s` turns a number into text with Rust's `to_string()` instead of value::number_to_string: from 1e21 and below 1e-6 the "
+                           "two spell the number differently (`({ get 1e21() {..} })` defines a property named '1000000000000000000000')" % top)
+    return n
